@@ -2,6 +2,8 @@
 
 A *case* (JSON-serialisable) describes one use of CircuitFinderSat:
   {'tt': ['01*0', ...],            one string per output over 0/1/* (TruthTableModel argument)
+   'model': 'tt'|'pyfunc',         optional: TruthTableModel (default) or PyFunctionModel over the same table
+   'n': 2,                         optional: input count (needed only for a pyfunc model with no outputs)
    'r': 2,                         number_of_gates
    'basis': {'kind': 'enum'|'str'|'list', 'name': 'AIG' | 'ops': ['and_', ...]},
    'norm': False,                  need_normalized
@@ -65,10 +67,31 @@ def apply_constraint(f, k):
         f.forbid_wire(k[1], k[2])
 
 
+def case_n(case):
+    if 'n' in case:
+        return case['n']
+    return len(case['tt'][0]).bit_length() - 1
+
+
+def function_model(case):
+    _, TruthTableModel, _ = _imports()
+    if case.get('model', 'tt') == 'tt':
+        return TruthTableModel(case['tt'])
+    from cirbo.core.logic import DontCare
+    from cirbo.core.python_function import PyFunctionModel
+    tt, n = case['tt'], case_n(case)
+    val = {'0': False, '1': True, '*': DontCare}
+
+    def func(args):
+        t = int(''.join('1' if a else '0' for a in args), 2) if args else 0
+        return [val[row[t]] for row in tt]
+    return PyFunctionModel(func, input_size=n, output_size=len(tt))
+
+
 def make_finder(case, upto='post'):
     """constructs the finder, applies the constraints; returns the finder"""
     _, TruthTableModel, cs = _imports()
-    f = cs.CircuitFinderSat(TruthTableModel(case['tt']), case['r'], basis=resolve_basis_arg(case['basis']),
+    f = cs.CircuitFinderSat(function_model(case), case['r'], basis=resolve_basis_arg(case['basis']),
                             need_normalized=case['norm'])
     for k in case['pre']:
         apply_constraint(f, k)
@@ -341,13 +364,31 @@ def random_case(rng, max_n=3, max_r=4):
         if k is not None:
             cons.append(k)
     cut = rng.choice([len(cons), len(cons), rng.randint(0, len(cons))])
-    return {'tt': tt, 'r': r, 'basis': basis, 'norm': norm, 'pre': cons[:cut], 'post': cons[cut:]}
+    case = {'tt': tt, 'r': r, 'basis': basis, 'norm': norm, 'pre': cons[:cut], 'post': cons[cut:]}
+    k = rng.random()
+    if k < 0.15:
+        case['model'] = 'pyfunc'
+        case['n'] = n
+        if k < 0.04:
+            case['tt'] = []          # a model without outputs (PyFunctionModel allows it)
+    return case
 
 
 def random_bad_constraint(rng, n, r):
-    g = rng.randrange(0, n + r + 2)
-    x = rng.randrange(0, n + r + 2)
-    y = rng.randrange(0, n + r + 2)
+    """a fix_gate / forbid_wire call with mostly-plausible arguments: every rejection branch is reachable"""
+    top = n + r
+
+    def gate_index():
+        k = rng.random()
+        if k < 0.7 and r > 0:
+            return n + rng.randrange(r)              # an internal gate
+        if k < 0.85 and n > 0:
+            return rng.randrange(n)                  # an input
+        return top + rng.randrange(2)                # absent
+
+    def any_index():
+        return rng.randrange(top) if top and rng.random() < 0.85 else top + rng.randrange(2)
+    g, x, y = gate_index(), any_index(), any_index()
     k = rng.random()
     if k < 0.3:
         return ['forbid', x, g]
@@ -377,6 +418,11 @@ CORPUS = [
     {'tt': ['0110', '0001'], 'r': 2, 'basis': {'kind': 'str', 'name': 'xaig'}, 'norm': True, 'pre': [], 'post': []},
     {'tt': ['01'], 'r': 1, 'basis': {'kind': 'enum', 'name': 'FULL'}, 'norm': False, 'pre': [], 'post': []},
     {'tt': ['1'], 'r': 0, 'basis': {'kind': 'enum', 'name': 'FULL'}, 'norm': False, 'pre': [], 'post': []},
+    # a PyFunctionModel, and one without outputs (D14b again: no row constrains anything)
+    {'tt': ['0111'], 'r': 1, 'basis': {'kind': 'enum', 'name': 'AIG'}, 'norm': True, 'pre': [], 'post': [],
+     'model': 'pyfunc', 'n': 2},
+    {'tt': [], 'r': 2, 'basis': {'kind': 'enum', 'name': 'FULL'}, 'norm': False, 'pre': [], 'post': [],
+     'model': 'pyfunc', 'n': 2},
 ]
 
 
@@ -387,9 +433,9 @@ class Shape:
     def __init__(self, case):
         self.tt = case['tt']
         self.m = len(self.tt)
-        rows = len(self.tt[0])
-        self.n = rows.bit_length() - 1
-        assert 1 << self.n == rows and all(len(r) == rows for r in self.tt)
+        self.n = case_n(case)
+        rows = 1 << self.n
+        assert all(len(r) == rows for r in self.tt)
         self.r = case['r']
         self.all_ops = set(basis_ops(case['basis']))
         self.norm = bool(case['norm'])
@@ -567,7 +613,7 @@ def shrink(case, msg):
         for fld in ('pre', 'post'):
             for i in range(len(case[fld])):
                 cands.append(dict(case, **{fld: case[fld][:i] + case[fld][i + 1:]}))
-        if len(case['tt']) > 1:
+        if len(case['tt']) > 1 or ('n' in case and case['tt']):
             for i in range(len(case['tt'])):
                 cands.append(dict(case, tt=case['tt'][:i] + case['tt'][i + 1:]))
         if case['post']:
